@@ -3,7 +3,7 @@
     ignore is the segment-wise "strictly beneath" relation; patterns never
     match across a '/'. *)
 From Coq Require Import List NArith Bool Lia.
-From Verif Require Import Lib.Path Caco.Names Caco.NamesProofs Caco.FileSet.
+From Verif Require Import Lib.Path Caco.Names Caco.NamesProofs Caco.Match Caco.MatchProofs Caco.FileSet.
 Import ListNotations.
 Local Open Scope N_scope.
 
@@ -96,7 +96,7 @@ Theorem ignored_spec p r f :
   (exists i, In i (r_ignore r) /\ ends_with_slash i = true /\
              under_ignored_dir f (make_rel_path p i) = true) \/
   (exists i, In i (r_ignore r) /\ ends_with_slash i = false /\
-             gmatch (make_rel_path p i) f = true).
+             matches (make_rel_path p i) f = true).
 Proof.
   unfold ignored, ignore_dirs, ignore_pats. rewrite orb_true_iff, !existsb_exists. split.
   - intros [(d & Hd & H)|(d & Hd & H)]; apply in_map_iff in Hd as (i & <- & Hi);
@@ -111,16 +111,16 @@ Qed.
 
 Lemma run_selects_spec x sb tree p r sels acc all :
   run_selects x sb tree p r sels acc = inr all ->
-  (forall sel, In sel sels -> exists ms, ms <> [] /\ select_matches x sb tree p sel = Some ms) /\
+  (forall sel, In sel sels -> exists ms, ms <> [] /\ select_matches x sb tree p sel = SOk ms) /\
   forall f, In f all <->
     In f acc \/
-    exists sel ms, In sel sels /\ select_matches x sb tree p sel = Some ms /\
+    exists sel ms, In sel sels /\ select_matches x sb tree p sel = SOk ms /\
                    In f ms /\ ignored p r f = false.
 Proof.
   revert acc; induction sels as [|sel sels IH]; intros acc H; cbn in H.
   - injection H as <-. split; [intros ? []|]. intros f. split; [now left|].
     intros [Hf|(s & ms & [] & _)]. exact Hf.
-  - destruct (select_matches x sb tree p sel) as [ms|] eqn:Es; [|discriminate].
+  - destruct (select_matches x sb tree p sel) as [ms| |] eqn:Es; try discriminate.
     destruct ms as [|m ms]; [discriminate|].
     destruct (IH _ H) as [Hall Hin]. split.
     + intros s [<-|Hs]; [exists (m :: ms); split; [discriminate|exact Es]|now apply Hall].
@@ -139,15 +139,15 @@ Theorem file_set_exact x sb tree p r name files :
   file_set x sb tree p r = FsOk name files ->
   name = make_rel_path p (r_name r) /\
   sortedb files = true /\
-  (forall sel, In sel (r_select r) -> exists ms, ms <> [] /\ select_matches x sb tree p sel = Some ms) /\
+  (forall sel, In sel (r_select r) -> exists ms, ms <> [] /\ select_matches x sb tree p sel = SOk ms) /\
   forall f, In f files <->
     (exists e, In e (r_files r) /\ f = make_path p e) \/
-    exists sel ms, In sel (r_select r) /\ select_matches x sb tree p sel = Some ms /\
+    exists sel ms, In sel (r_select r) /\ select_matches x sb tree p sel = SOk ms /\
                    In f ms /\ ignored p r f = false.
 Proof.
   unfold file_set.
   destruct (run_selects x sb tree p r (r_select r) (map (make_path p) (r_files r))) as [e|all] eqn:E.
-  - destruct e; discriminate.
+  - discriminate.
   - intros [= <- <-]. destruct (run_selects_spec _ _ _ _ _ _ _ _ E) as [Hall Hin].
     split; [reflexivity|]. split; [apply sort_set_sorted|]. split; [exact Hall|].
     intros f. rewrite sort_set_in, Hin, in_map_iff. split.
@@ -155,71 +155,189 @@ Proof.
     + intros [(e & He & ->)|H]; [left; now exists e|now right].
 Qed.
 
-(** When the listing fails, a selection really matched nothing (or its
-    directory could not be listed). *)
+(** When the listing fails, a selection really matched nothing, its
+    directory could not be listed, or its pattern is malformed. *)
 Lemma run_selects_err x sb tree p r sels acc e :
   run_selects x sb tree p r sels acc = inl e ->
   exists sel, In sel sels /\
-    ((e = SelNoFiles sel /\ select_matches x sb tree p sel = Some []) \/
-     (e = SelListErr sel /\ select_matches x sb tree p sel = None)).
+    ((e = SelNoFiles sel /\ select_matches x sb tree p sel = SOk []) \/
+     (e = SelListErr sel /\ select_matches x sb tree p sel = SListErr) \/
+     (e = SelGlobErr sel /\ select_matches x sb tree p sel = SGlobErr)).
 Proof.
   revert acc; induction sels as [|sel sels IH]; intros acc H; cbn in H; [discriminate|].
-  destruct (select_matches x sb tree p sel) as [ms|] eqn:Es.
+  destruct (select_matches x sb tree p sel) as [ms| |] eqn:Es.
   - destruct ms as [|m ms].
     + injection H as <-. exists sel. split; [now left|]. left. now split.
     + destruct (IH _ H) as (s & Hs & Hc). exists s. split; [now right|exact Hc].
-  - injection H as <-. exists sel. split; [now left|]. right. now split.
+  - injection H as <-. exists sel. split; [now left|]. right. left. now split.
+  - injection H as <-. exists sel. split; [now left|]. right. right. now split.
 Qed.
 
-Theorem file_set_error x sb tree p r :
-  (forall sel, file_set x sb tree p r = FsNoFiles sel ->
-     In sel (r_select r) /\ select_matches x sb tree p sel = Some []) /\
-  (forall sel, file_set x sb tree p r = FsListErr sel ->
-     In sel (r_select r) /\ select_matches x sb tree p sel = None).
+Theorem file_set_error x sb tree p r e :
+  file_set x sb tree p r = FsErr e ->
+  exists sel, In sel (r_select r) /\
+    ((e = SelNoFiles sel /\ select_matches x sb tree p sel = SOk []) \/
+     (e = SelListErr sel /\ select_matches x sb tree p sel = SListErr) \/
+     (e = SelGlobErr sel /\ select_matches x sb tree p sel = SGlobErr)).
 Proof.
   unfold file_set.
-  destruct (run_selects x sb tree p r (r_select r) (map (make_path p) (r_files r))) as [e|all] eqn:E.
-  - destruct (run_selects_err _ _ _ _ _ _ _ _ E) as (s & Hs & [[-> Hm]|[-> Hm]]);
-      split; intros sel [= <-]; now split.
-  - split; intros sel; discriminate.
+  destruct (run_selects x sb tree p r (r_select r) (map (make_path p) (r_files r))) as [e'|all] eqn:E;
+    [|discriminate].
+  intros [= <-]. eapply run_selects_err. exact E.
 Qed.
 
-(** *** Patterns never match across a slash *)
-
-Fixpoint count_slash (s : str) : nat :=
-  match s with
-  | [] => 0
-  | c :: r => (if c =? slash then 1 else 0) + count_slash r
-  end.
-
-Theorem gmatch_same_depth pat s : gmatch pat s = true -> count_slash pat = count_slash s.
+(** A malformed ignore pattern ignores nothing; a malformed selection
+    pattern fails the rule. *)
+Lemma matches_bad pat name : well_formed pat = false -> matches pat name = false.
 Proof.
-  revert s; induction pat as [|c pat IH]; intros s.
-  - cbn. destruct s; [reflexivity|discriminate].
-  - cbn [gmatch]. destruct (c =? star) eqn:Es.
-    + apply N.eqb_eq in Es. subst c. cbn [count_slash]. change (star =? slash) with false. cbn [plus].
-      induction s as [|d s IHs].
-      * rewrite orb_false_r. apply IH.
-      * intros H. apply orb_true_iff in H as [H|H]; [now apply IH|].
-        apply andb_true_iff in H as [Hd H]. apply negb_true_iff in Hd.
-        cbn [count_slash]. rewrite Hd. now apply IHs.
-    + destruct s as [|d s]; [discriminate|].
-      destruct (c =? qmark) eqn:Eq.
-      * apply N.eqb_eq in Eq. subst c. intros H. apply andb_true_iff in H as [Hd H].
-        apply negb_true_iff in Hd. cbn [count_slash]. change (qmark =? slash) with false.
-        rewrite Hd. now apply IH.
-      * intros H. apply andb_true_iff in H as [Hd H]. apply N.eqb_eq in Hd. subst d.
-        cbn [count_slash]. f_equal. now apply IH.
+  intros H. unfold matches. apply (proj2 (MatchProofs.go_match_bad_iff pat name)) in H. now rewrite H.
 Qed.
 
-Definition literalb (pat : str) : bool :=
-  forallb (fun c => negb (c =? star) && negb (c =? qmark)) pat.
+(** *** Glob selects are element-wise *)
 
-Theorem gmatch_literal pat s : literalb pat = true -> gmatch pat s = str_eqb pat s.
+Lemma has_meta_app a b : has_meta (a ++ b) = has_meta a || has_meta b.
+Proof. unfold has_meta. apply existsb_app. Qed.
+
+Lemma has_meta_join l : has_meta (join_slash l) = false -> forallb (fun s => negb (has_meta s)) l = true.
 Proof.
-  revert s; induction pat as [|c pat IH]; intros s H.
-  - destruct s; reflexivity.
-  - cbn in H. apply andb_true_iff in H as [Hc H]. apply andb_true_iff in Hc as [H1 H2].
-    apply negb_true_iff in H1, H2. cbn [gmatch]. rewrite H1.
-    destruct s as [|d s]; [reflexivity|]. rewrite H2. cbn [str_eqb]. now rewrite IH.
+  induction l as [|a l IH]; [reflexivity|]. destruct l as [|b l].
+  - cbn [join_slash forallb]. intros ->. reflexivity.
+  - change (join_slash (a :: b :: l)) with (a ++ slash :: join_slash (b :: l)).
+    rewrite has_meta_app. intros H. apply orb_false_iff in H as [Ha H].
+    change (slash :: join_slash (b :: l)) with ([slash] ++ join_slash (b :: l)) in H.
+    rewrite has_meta_app in H. apply orb_false_iff in H as [_ H].
+    cbn [forallb]. rewrite Ha. cbn [negb andb]. now apply IH.
+Qed.
+
+Lemma matches_self seg : has_meta seg = false -> fp_matches seg seg = true.
+Proof. intros H. unfold fp_matches. now rewrite fp_match_literal, str_eqb_refl by exact H. Qed.
+
+Lemma self_matches l :
+  forallb (fun s => negb (has_meta s)) l = true -> Forall2 (fun seg n => fp_matches seg n = true) l l.
+Proof.
+  induction l as [|a l IH]; intros H; [constructor|]. cbn in H. apply andb_true_iff in H as [Ha H].
+  constructor; [apply matches_self; now apply negb_true_iff in Ha|now apply IH].
+Qed.
+
+Lemma glob_level_in tree seg : forall ds ms,
+  glob_level tree ds seg = Some ms ->
+  forall m, In m ms ->
+  exists d n, In d ds /\ m = join_dir d n /\ fp_matches seg n = true /\ In n (child_names tree d).
+Proof.
+  induction ds as [|d ds IH]; intros ms H m Hm; cbn [glob_level] in H.
+  - injection H as <-. destruct Hm.
+  - destruct (existsb _ _); [discriminate|].
+    destruct (glob_level tree ds seg) as [ms'|] eqn:E; [|discriminate]. injection H as <-.
+    apply in_app_or in Hm as [Hm|Hm].
+    + apply in_map_iff in Hm as (n & <- & Hn). apply filter_In in Hn as [Hn Hmt].
+      exists d, n. repeat split; [now left| exact Hmt|].
+      destruct (stat_is_dir tree d); [exact Hn|destruct Hn].
+    + destruct (IH _ eq_refl _ Hm) as (d' & n & Hd & E' & Hmt & Hn). exists d', n. repeat split; try assumption. now right.
+Qed.
+
+Lemma child_names_nonempty tree d n : In n (child_names tree d) -> is_empty n = false.
+Proof.
+  unfold child_names. intros H. apply in_flat_map in H as (e & _ & H).
+  destruct (beneath (t_path e) d && negb (is_empty (rest_under (t_path e) d)) && noslashb (rest_under (t_path e) d)) eqn:E; [|destruct H].
+  destruct H as [<-|[]]. apply andb_true_iff in E as [E _]. apply andb_true_iff in E as [_ E].
+  now apply negb_true_iff in E.
+Qed.
+
+Lemma join_nonempty_list l :
+  forallb (fun s => negb (is_empty s)) l = true -> join_slash l = [] -> l = [].
+Proof.
+  destruct l as [|a l]; [reflexivity|]. cbn [forallb]. intros H E. apply andb_true_iff in H as [Ha _].
+  destruct a; [discriminate|]. destruct l; discriminate.
+Qed.
+
+Lemma join_dir_snoc l n :
+  forallb (fun s => negb (is_empty s)) l = true ->
+  join_dir (join_slash l) n = join_slash (l ++ [n]).
+Proof.
+  intros H. unfold join_dir. destruct (is_empty (join_slash l)) eqn:E.
+  - assert (El : join_slash l = []) by (destruct (join_slash l); [reflexivity|discriminate]).
+    now rewrite (join_nonempty_list l H El).
+  - assert (Hl : l <> []) by (intros ->; discriminate).
+    now rewrite join_slash_app by (exact Hl || discriminate).
+Qed.
+
+Definition nonempty_all (l : list str) : bool := forallb (fun s => negb (is_empty s)) l.
+
+(** Every path a glob selection lists has as many elements as the pattern,
+    and each element is matched by the corresponding pattern element: no
+    element of a pattern ever matches across a directory separator. *)
+Theorem glob_rev_elementwise tree : forall segs_rev ms,
+  nonempty_all segs_rev = true ->
+  glob_rev tree segs_rev = Some ms ->
+  forall m, In m ms ->
+  exists names, m = join_slash names /\ nonempty_all names = true /\
+                Forall2 (fun seg n => fp_matches seg n = true) (rev segs_rev) names.
+Proof.
+  induction segs_rev as [|seg pre_rev IH]; intros ms Hne H m Hm.
+  - cbn in H. injection H as <-. destruct Hm as [<-|[]]. exists []. repeat split. constructor.
+  - cbn [glob_rev] in H.
+    assert (Hne' : nonempty_all pre_rev = true) by (cbn in Hne; now apply andb_true_iff in Hne as [_ Hne]).
+    assert (Hrev : nonempty_all (rev (seg :: pre_rev)) = true) by (unfold nonempty_all; now rewrite forallb_rev).
+    destruct (glob_accepts (join_slash (rev (seg :: pre_rev)))); cbn [negb] in H; [|discriminate].
+    destruct (has_meta (join_slash (rev (seg :: pre_rev)))) eqn:Hm0; cbn [negb] in H.
+    + set (dirp := join_slash (rev pre_rev)) in *.
+      assert (Hds : exists ds, glob_level tree ds seg = Some ms /\
+                forall d, In d ds -> exists names, d = join_slash names /\ nonempty_all names = true /\
+                     Forall2 (fun seg n => fp_matches seg n = true) (rev pre_rev) names).
+      { destruct (has_meta dirp) eqn:Hmd.
+        - destruct (glob_rev tree pre_rev) as [ds|] eqn:Eg; [|discriminate].
+          exists ds. split; [exact H|]. intros d Hd. now apply (IH ds Hne' eq_refl d Hd).
+        - exists [dirp]. split; [exact H|]. intros d [<-|[]]. exists (rev pre_rev).
+          split; [reflexivity|]. split; [unfold nonempty_all; now rewrite forallb_rev|].
+          apply self_matches. now apply has_meta_join. }
+      destruct Hds as (ds & Hl & Hds).
+      destruct (glob_level_in _ _ _ _ Hl _ Hm) as (d & n & Hd & -> & Hmt & Hn).
+      destruct (Hds d Hd) as (names & -> & Hnn & HF).
+      exists (names ++ [n]). split; [now apply join_dir_snoc|]. split.
+      * unfold nonempty_all in *. rewrite forallb_app, Hnn. cbn. now rewrite (child_names_nonempty _ _ _ Hn).
+      * cbn [rev]. apply Forall2_app; [exact HF|]. constructor; [exact Hmt|constructor].
+    + exists (rev (seg :: pre_rev)).
+      destruct (exists_path tree (join_slash (rev (seg :: pre_rev)))); injection H as <-; [|destruct Hm].
+      destruct Hm as [<-|[]]. split; [reflexivity|]. split; [exact Hrev|].
+      apply self_matches. now apply has_meta_join.
+Qed.
+
+(** A selection pattern that [Match(pattern, "")] rejects is an error,
+    whatever the tree. *)
+Lemma glob_rev_bad tree seg pre_rev :
+  glob_accepts (join_slash (rev (seg :: pre_rev))) = false -> glob_rev tree (seg :: pre_rev) = None.
+Proof. intros H. cbn [glob_rev]. now rewrite H. Qed.
+
+(** *** Symbolic links *)
+
+(** The recursive listing never descends a symbolic link: every directory
+    between the listing root and a listed path is a real directory (and is
+    not one of the pruned names). *)
+Theorem list_all_no_follow x sb tree R l f :
+  list_all x sb tree R = Some l -> In f l ->
+  f = R \/
+  forall q, In q (dirs_between f R) ->
+    exists e, find_entry tree q = Some e /\ t_kind e = TDir.
+Proof.
+  unfold list_all. intros H Hf.
+  set (wd := if mem_str (if is_empty R then sb else base_name R) (skip_dirs x) then []
+             else map t_path (filter (fun e =>
+                    negb (is_real_dir (t_kind e)) && beneath (t_path e) R &&
+                    forallb (walkable x tree) (dirs_between (t_path e) R) &&
+                    file_ok x (base_name (t_path e))) tree)) in *.
+  assert (Hwd : In f wd -> forall q, In q (dirs_between f R) ->
+                 exists e, find_entry tree q = Some e /\ t_kind e = TDir).
+  { unfold wd. destruct (mem_str _ _); [intros []|]. intros Hin q Hq.
+    apply in_map_iff in Hin as (e & <- & He). apply filter_In in He as [_ He].
+    apply andb_true_iff in He as [He _]. apply andb_true_iff in He as [_ He].
+    rewrite forallb_forall in He. specialize (He q Hq). unfold walkable in He.
+    destruct (find_entry tree q) as [e'|]; [|discriminate]. exists e'. split; [reflexivity|].
+    apply andb_true_iff in He as [He _]. destruct (t_kind e'); try discriminate. reflexivity. }
+  destruct (is_empty R).
+  - injection H as <-. right. now apply Hwd.
+  - destruct (find_entry tree R) as [e|]; [|discriminate].
+    destruct (is_real_dir (t_kind e)).
+    + injection H as <-. right. now apply Hwd.
+    + injection H as <-. destruct (file_ok x (base_name R)); [|destruct Hf].
+      destruct Hf as [<-|[]]. now left.
 Qed.
